@@ -110,6 +110,12 @@ fn generate(cli: &Cli) -> Vec<Case> {
                             let mut plan = default_plan(&p, secret);
                             plan.enc = enc.clone();
                             plan.cookies = vec![(AUTH_KEY.to_string(), ck.payload.clone())];
+                            if rng.bool() {
+                                // a returning client: its session cookie (unsigned, its own to write) names
+                                // another host and port than the handshake of this connection
+                                let session = serde_json::to_vec(&json!({"id": uuid_string(rng.u64() as u128), "server_address": "other-host.example.net", "server_port": 1})).expect("json");
+                                plan.cookies.push((mk::SESSION_KEY.to_string(), Some(session)));
+                            }
                             let nt = rng.range(1, 4) as usize;
                             let mut adapters = mk::routing_adapters(if auth_ok { Some((&authed, &authed_props)) } else { None }, mk::targets(&mut rng, nt));
                             adapters.strategy = StrategyScript::Position(rng.below(4) as usize);
@@ -217,7 +223,15 @@ fn check(case: &Case, run: &Run) -> Vec<Finding> {
                 ),
             }
             for c in f.filter_calls.iter().chain(f.select_calls.iter()) {
-                let (Call::Filter { user, .. } | Call::Select { user, .. }) = &c.call else { continue };
+                let (Call::Filter { user, ctx, .. } | Call::Select { user, ctx, .. }) = &c.call else { continue };
+                // ... and for the host the player connected with (the handshake's, not one a cookie names)
+                if ctx.server_addr != ("mc.example.net".to_string(), 25565) || ctx.client_addr != case.sc.cfg.client_addr {
+                    bad(
+                        &format!("routing-identity/{}/connection-context", c.call.name()),
+                        format!("{} adapter was told the player connected to {:?} from {}; the handshake said mc.example.net:25565, the client address is {}", c.call.name(), ctx.server_addr, ctx.client_addr, case.sc.cfg.client_addr),
+                        json!({"got": format!("{ctx:?}")}),
+                    );
+                }
                 if user.0 != id.name || user.1.as_u128() != id.uuid {
                     let which = if user.0 == case.claimed.name || user.1.as_u128() == case.claimed.uuid { "claimed" } else { "other" };
                     bad(
